@@ -16,6 +16,7 @@ GEN = "utype/specs/json_schema/generator.py"
 JPARSER = "utype/specs/json_schema/parser.py"
 JCONST = "utype/specs/json_schema/constant.py"
 ENC = "utype/utils/encode.py"
+EXC = "utype/utils/exceptions.py"
 
 
 def B(name, prop, rule, *edits, **kw):
@@ -1190,6 +1191,138 @@ VARIANTS = [
             if cached is not None:
                 return cached""", """            if t in self._cache:
                 return self._cache[t]""")),
+    # ------------------------------------------------------------------ benign: renamed locals / hoisted attributes (robustness of the newer rules)
+    G("benign C14: utc flag renamed",
+      (TRANS, """        is_utc = "GMT" in data""", """        utc = "GMT" in data"""),
+      (TRANS, """                val = t.strptime(data, f)
+                if is_utc:
+                    val = val.replace(tzinfo=timezone.utc)""", """                val = t.strptime(data, f)
+                if utc:
+                    val = val.replace(tzinfo=timezone.utc)"""),
+      (TRANS, """                    val = t.strptime(data, f + (' %z' if offset.group(1) else '%z'))
+                    if is_utc:""", """                    val = t.strptime(data, f + (' %z' if offset.group(1) else '%z'))
+                    if utc:""")),
+    G("benign C13: required list renamed",
+      (GEN, """        required = []
+        properties = {}
+        dependent_required = {}
+        options = parser.options""", """        required_names = []
+        properties = {}
+        dependent_required = {}
+        options = parser.options"""),
+      (GEN, """                # will count options.ignore_required in
+                required.append(name)
+            elif self.output:
+                if not field.no_default:
+                    # if field has default, the value is required in the output data
+                    required.append(name)
+
+        data.update(properties=properties)
+        if required:
+            data.update(required=required)""", """                # will count options.ignore_required in
+                required_names.append(name)
+            elif self.output:
+                if not field.no_default:
+                    # if field has default, the value is required in the output data
+                    required_names.append(name)
+
+        data.update(properties=properties)
+        if required_names:
+            data.update(required=required_names)""")),
+    G("benign C15: class namespace dict renamed",
+      (JPARSER, """        attrs = {}
+        annotations = {}
+        options = self.object_options_cls(""", """        namespace = {}
+        annotations = {}
+        options = self.object_options_cls("""),
+      (JPARSER, """            if not valid_attr(attname) or attname.startswith('_') or attname in attrs \\
+                    or hasattr(self.object_base_cls, attname):
+                attname = self.get_attname(attname, excludes=list(attrs) + list(properties) + dir(self.object_base_cls))""",
+       """            if not valid_attr(attname) or attname.startswith('_') or attname in namespace \\
+                    or hasattr(self.object_base_cls, attname):
+                attname = self.get_attname(attname, excludes=list(namespace) + list(properties) + dir(self.object_base_cls))"""),
+      (JPARSER, """            annotations[attname] = field_type
+            attrs[attname] = field""", """            annotations[attname] = field_type
+            namespace[attname] = field"""),
+      (JPARSER, """        attrs.update(
+            __annotations__=annotations,
+            __options__=options
+        )
+        if description:
+            attrs.update(__doc__=description)
+        new_cls = self.object_meta_cls(name, (self.object_base_cls,), attrs)""", """        namespace.update(
+            __annotations__=annotations,
+            __options__=options
+        )
+        if description:
+            namespace.update(__doc__=description)
+        new_cls = self.object_meta_cls(name, (self.object_base_cls,), namespace)""")),
+    G("benign C16/C20: registry list hoisted into a local in resolve",
+      (UBASE, """            for detector, trans, priority in self._registry:
+                try:
+                    if detector(t):
+                        if self.cache:""", """            entries = self._registry
+            for detector, trans, priority in entries:
+                try:
+                    if detector(t):
+                        if self.cache:""")),
+    G("benign C12: transformer flag read through a local",
+      (TRANS, """    def _from_byte_like(self, data):
+        if isinstance(data, (bytes, bytearray, memoryview)):
+            if isinstance(data, memoryview):
+                data = bytes(data)
+            return data.decode(errors="strict" if self.no_data_loss else "ignore")""", """    def _from_byte_like(self, data):
+        if isinstance(data, (bytes, bytearray, memoryview)):
+            if isinstance(data, memoryview):
+                data = bytes(data)
+            strict = self.no_data_loss
+            return data.decode(errors="strict" if strict else "ignore")""")),
+    G("benign C19/C20: forward-ref worker renamed",
+      (BASE, "                return self._resolve_forward_refs(done, local_vars=local_vars, ignore_errors=ignore_errors)",
+       "                return self._do_resolve(done, local_vars=local_vars, ignore_errors=ignore_errors)"),
+      (BASE, "    def _resolve_forward_refs(self, done: list, local_vars=None, ignore_errors: bool = True):",
+       "    def _do_resolve(self, done: list, local_vars=None, ignore_errors: bool = True):")),
+    G("benign C18: stage options built through a helper variable",
+      (RULE, """                strict_options = utype.Options(no_data_loss=True, no_explicit_cast=True)
+
+                for con in cls.args:
+                    with context.enter(cls.combinator, options=strict_options) as new_context:""", """                stage = utype.Options(no_data_loss=True, no_explicit_cast=True)
+
+                for con in cls.args:
+                    with context.enter(cls.combinator, options=stage) as new_context:""")),
+    G("benign C06: used-alias set renamed",
+      (BASE, "        used_alias = set()", "        consumed = set()"),
+      (BASE, "            used_alias.update(field.all_aliases)", "            consumed.update(field.all_aliases)"),
+      (BASE, "                if k in used_alias:\n                    continue", "                if k in consumed:\n                    continue")),
+    G("benign C05: get_default called with a keyword for options",
+      (BASE, """            unprovided_fields.add(name)
+            if field.is_required(options=options):
+                context.handle_error(exc.AbsenceError(item=name))
+                continue
+            default = field.get_default(options, defer=False)
+            if not unprovided(default):
+                result[name] = default
+
+        if dependencies:""", """            unprovided_fields.add(name)
+            if field.is_required(options=options):
+                context.handle_error(exc.AbsenceError(item=name))
+                continue
+            default = field.get_default(options=options, defer=False)
+            if not unprovided(default):
+                result[name] = default
+
+        if dependencies:""")),
+    G("benign C11: child context variable renamed in parse_output_value",
+      (FIELD, """            with context.enter(self.name) as new_context:
+                # errors recorded by the output type's own parsing stay in the child context
+                return new_context.transformer(value, type)  # noqa""", """            with context.enter(self.name) as child:
+                # errors recorded by the output type's own parsing stay in the child context
+                return child.transformer(value, type)  # noqa""")),
+    G("benign C04: error message built in two steps",
+      (EXC, """        msg = f"parse item: [{repr(self.item)}] exceeded"
+        if self.msg:""", """        label = repr(self.item)
+        msg = f"parse item: [{label}] exceeded"
+        if self.msg:""")),
     G("benign comment and blank lines",
       (RULE, "        context.raise_error()  # raise error if collected\n        return value", "        # flush\n\n        context.raise_error()\n        return value")),
 ]
